@@ -99,7 +99,31 @@ pub fn run(ctx: &Ctx) -> Report {
             let step = locals.len() / 24 + 1;
             locals = locals.into_iter().step_by(step).collect();
         }
-        let text = render(&z, &instants, &locals);
+        let mut text = render(&z, &instants, &locals);
+        // malformed variants of the same zone (the constructors must refuse the same tuples with the same error in every
+        // build): arbitrary edits, and the last transition's type against the rule in each single respect
+        if i % 4 >= 2 {
+            let few = &instants[..instants.len().min(3)];
+            let mut m = z.clone();
+            for _ in 0..1 + rng.below(3) {
+                crate::mon::c13::mutate(&mut m, rng);
+            }
+            text.push_str(&render(&m, few, &[]));
+            if let (Some(&(_, last)), true) = (z.transitions.last(), z.rule.is_some()) {
+                if last < z.types.len() {
+                    for k in 0..3 {
+                        let mut v = z.clone();
+                        match k {
+                            0 => v.types[last].dst = !v.types[last].dst,
+                            1 => v.types[last].off = v.types[last].off.saturating_add(1),
+                            _ => v.types[last].desig = Some("QQQ".into()),
+                        }
+                        text.push_str(&render(&v, few, &[]));
+                    }
+                    l.class("variants_last_type_against_rule");
+                }
+            }
+        }
         l.op_n("cases written", 1);
         l.distinct_enumerated += 1;
         parts.lock().unwrap().push((i, text));
